@@ -417,6 +417,12 @@ func corruptDgram(rng *vrng, spec *cipherSpec, ref *refCrypt, gcm cipher.AEAD, o
 			}
 			return out[:rng.intn(28)], "shorter-than-header", true
 		case 3:
+			if len(out) >= mtuLimit {
+				// the receiver reads at most mtuLimit bytes of a datagram (as any UDP
+				// read into a buffer of that size): bytes appended beyond that never
+				// reach it and what it sees is the valid original
+				return out, "aead-extended-beyond-the-read-buffer", false
+			}
 			return append(out, rng.bytes(rng.between(1, 20))...), "aead-extended", true
 		case 4:
 			return out[:rng.intn(28)], "shorter-than-header", true
